@@ -141,8 +141,16 @@ func (p IdentityPather) BlobPath(name string) (string, error) {
 
 // NameFromBlobPath strips the root from bp.
 func (p IdentityPather) NameFromBlobPath(bp string) (string, error) {
-	if !strings.HasPrefix(bp, p.root) {
+	// BlobPath joins (and thereby cleans) root and name, so the prefix to strip
+	// is the cleaned root plus a separator, not the raw root.
+	prefix := path.Join(p.root)
+	if prefix == "." {
+		prefix = ""
+	} else if prefix != "" && !strings.HasSuffix(prefix, "/") {
+		prefix += "/"
+	}
+	if !strings.HasPrefix(bp, prefix) {
 		return "", errors.New("invalid identity path format")
 	}
-	return bp[len(p.root)+1:], nil
+	return bp[len(prefix):], nil
 }
